@@ -912,23 +912,25 @@ func ruleBatchDelivery(c *Ctx, r *R) {
 			r.ok(good, "stream.batchStream.Next|closed-block#"+itoa(nb), posOf(op.in), "when batchC is closed Next must return iter.err if it is non-nil and End only otherwise (both sibling blocks)")
 		}
 	}
-	if nb < 2 {
-		r.violated("stream.batchStream.Next|closed-blocks", nx.Pos(), "expected two receive arms on batchC (immediate and after announcing)")
+	if nb < 1 {
+		r.violated("stream.batchStream.Next|closed-blocks", nx.Pos(), "expected a receive arm on batchC (immediate and after announcing)")
 	}
 	// announce-before-wait: a send arm on waiting whose body is a blocking select on batchC
 	ann := false
 	for _, op := range chanOpsOf(nx) {
 		for _, a := range op.arms {
 			if a.send && fieldOfChan(a.ch) == "waiting" && a.body != nil {
-				for _, in := range a.body.Instrs {
-					if s2, ok := in.(*ssa.Select); ok && s2.Blocking {
+				// ... followed by a blocking wait on batchC: in the arm itself, or - one select in a loop whose announcing arm
+				// is disabled after its first use - by going round to the same select
+				instrs(nx, func(sb *ssa.BasicBlock, _ int, in ssa.Instruction) {
+					if s2, ok := in.(*ssa.Select); ok && s2.Blocking && (sb == a.body || reaches(a.body, sb)) {
 						for _, st := range s2.States {
 							if st.Dir == types.RecvOnly && fieldOfChan(st.Chan) == "batchC" {
 								ann = true
 							}
 						}
 					}
-				}
+				})
 			}
 		}
 	}
